@@ -71,6 +71,6 @@ func runHist(c HistCase) error {
 }
 
 func TestControllerHistory(t *testing.T) {
-	fx.Run(t, fx.Spec[HistCase]{Prop: "C20", Name: "controller_history", Quick: 24, Thorough: 400, Gen: genHist, Run: runHist, ShrinkTime: "40s",
+	fx.Run(t, fx.Spec[HistCase]{Prop: "C20", Name: "controller_history", Journal: true, Quick: 24, Thorough: 400, Gen: genHist, Run: runHist, ShrinkTime: "40s",
 		Class: func(c HistCase) fx.Class { return fx.Class{NonTrivial: true, Fingerprint: fmt.Sprintf("%+v", c)} }})
 }
